@@ -231,4 +231,94 @@ def standin_predicates_vs_values(tier, seed):
                 bound="19 operations (unitary, mixture, non-mixture channels, measurements, classical control, parameterized) x 8 wrappers", cases=cases, distinct=cases,
                 failures=len(fails), exhaustive=True, _fails=uniq)
 standin_predicates_vs_values.prop = "C04"
-STANDINS = [standin_protocols, standin_predicates_vs_values]
+
+
+def standin_subcircuit_operations(tier, seed):
+    """a sub-circuit operation as an OPERATION: its reported matrix, its decomposition, in-place application, the simulators and its
+    inverse / controlled wrappers all give (product of the body's matrices) ** repetitions, also for one-qubit bodies (matrix fast path),
+    negative repetitions, parameters bound through param_resolver, a global phase inside the body and remapped qubits"""
+    import cirq
+    import sympy
+    from contracts import refsim
+
+    rng = random.Random(seed + 31)
+    cases, fails = 0, []
+    a = sympy.Symbol("a")
+    q = cirq.LineQubit.range(3)
+
+    def bad(what, op, **kw):
+        if sum(1 for f in fails if f["failed"] == what) < 2:
+            fails.append(dict(args=dict(operation=repr(op), **{k: repr(v) for k, v in kw.items()}), failed=what, clause=what))
+
+    bodies = [
+        ("T;H", [cirq.T(q[0]), cirq.H(q[0])], {}), ("X**0.5", [cirq.X(q[0]) ** 0.5], {}), ("X", [cirq.X(q[0])], {}),
+        ("X**a;T  (a bound to 0.5)", [cirq.X(q[0]) ** a, cirq.T(q[0])], {a: 0.5}), ("rz(a);H  (a bound to 0.3)", [cirq.rz(a).on(q[0]), cirq.H(q[0])], {a: 0.3}),
+        ("T;global phase i", [cirq.T(q[0]), cirq.global_phase_operation(1j)], {}), ("Y**0.25;global phase;S", [cirq.Y(q[0]) ** 0.25, cirq.global_phase_operation(np.exp(0.4j)), cirq.S(q[0])], {}),
+        ("H;CNOT;T", [cirq.H(q[0]), cirq.CNOT(q[0], q[1]), cirq.T(q[1])], {}), ("CZ**a;X**0.5 (a bound to 0.25)", [cirq.CZ(q[0], q[1]) ** a, cirq.X(q[1]) ** 0.5], {a: 0.25}),
+        ("ISWAP**0.5;global phase", [cirq.ISWAP(q[0], q[1]) ** 0.5, cirq.global_phase_operation(-1j)], {}),
+    ]
+    for label, body, binding in bodies:
+        used = sorted({x for o in body for x in o.qubits})
+        flat_body = [cirq.resolve_parameters(o, binding) for o in body]
+        U1 = refsim.ref_unitary(cirq.Circuit(flat_body), used)
+        for reps in (-3, -2, -1, 0, 1, 2, 3):
+            for variant in ("repetitions", "inverse()", "**-1", "qubit map"):
+                op = cirq.CircuitOperation(cirq.FrozenCircuit(body), param_resolver=binding or None)
+                order = list(used)
+                try:
+                    if variant == "repetitions":
+                        op = op.repeat(reps) if reps != 1 else op
+                        k = reps
+                    elif variant == "inverse()":
+                        op = cirq.inverse(op.repeat(reps) if reps != 1 else op)
+                        k = -reps
+                    elif variant == "**-1":
+                        op = (op.repeat(reps) if reps != 1 else op) ** -1
+                        k = -reps
+                    else:
+                        tgt = rng.sample(q, len(used))
+                        op = (op.repeat(reps) if reps != 1 else op).with_qubit_mapping(dict(zip(used, tgt)))
+                        order, k = tgt, reps
+                except Exception:
+                    continue
+                want = np.linalg.matrix_power(U1, k)
+                cases += 1
+                try:
+                    if not cirq.has_unitary(op):
+                        bad("has_unitary is False for a sub-circuit operation of unitary operations", op, body=label)
+                        continue
+                    got = cirq.unitary(op)
+                except Exception as ex:
+                    bad(f"cirq.unitary raised {type(ex).__name__} although has_unitary is True", op, body=label)
+                    continue
+                got = refsim.embed(got, list(op.qubits), order) if list(op.qubits) != order else got
+                if not np.allclose(got, want, atol=1e-8):
+                    bad("the reported matrix is not (product of the body's matrices) ** repetitions", op, body=label, repetitions=k)
+                dec = cirq.Circuit(cirq.decompose(op))
+                du = refsim.ref_unitary(dec, order) if len(dec.all_qubits()) else np.eye(len(want)) * (cirq.unitary(dec)[0, 0] if len(dec) else 1)
+                if du.shape == want.shape and not np.allclose(du, want, atol=1e-8):
+                    bad("the decomposition multiplies to a different matrix", op, body=label, repetitions=k)
+                psi = np.array([complex(rng.gauss(0, 1), rng.gauss(0, 1)) for _ in range(len(want))])
+                psi /= np.linalg.norm(psi)
+                for sim in (cirq.Simulator(dtype=np.complex128), cirq.Simulator(dtype=np.complex128, split_untangled_states=False)):
+                    r = sim.simulate(cirq.Circuit(op), initial_state=psi, qubit_order=order)
+                    if not np.allclose(r.final_state_vector, want @ psi, atol=1e-7):
+                        bad("the state-vector simulator applies a different matrix", op, body=label, repetitions=k)
+                rho = cirq.DensityMatrixSimulator(dtype=np.complex128).simulate(cirq.Circuit(op), initial_state=psi, qubit_order=order).final_density_matrix
+                if not np.allclose(rho, np.outer(want @ psi, (want @ psi).conj()), atol=1e-7):
+                    bad("the density-matrix simulator applies a different channel", op, body=label, repetitions=k)
+                if len(order) <= 2:
+                    ctl = cirq.NamedQubit("ctl")
+                    try:
+                        cu = cirq.unitary(cirq.Circuit(op.controlled_by(ctl)).unitary(qubit_order=[ctl] + order))
+                    except Exception as ex:
+                        bad(f"the controlled sub-circuit operation has no matrix ({type(ex).__name__})", op, body=label)
+                        continue
+                    wantc = np.block([[np.eye(len(want)), np.zeros_like(want)], [np.zeros_like(want), want]])
+                    if not np.allclose(cu, wantc, atol=1e-8):
+                        bad("controlled_by(q) of the sub-circuit operation is not diag(I, U)", op, body=label, repetitions=k)
+    return dict(function="cirq-core/cirq/circuits/circuit_operation.py:CircuitOperation[as an operation: unitary, decomposition, simulators, inverse, control]", case="subcircuit-operations",
+                bound="10 bodies (one- and two-qubit, bound parameters, global phases) x repetitions -3..3 x {repeat, inverse(), **-1, qubit map}", cases=cases, distinct=cases,
+                failures=len(fails), exhaustive=True, _fails=fails[:4])
+standin_subcircuit_operations.prop = "C04"
+STANDINS = [standin_protocols, standin_predicates_vs_values, standin_subcircuit_operations]
